@@ -130,7 +130,8 @@ func (t *Tree[E]) sequenceEnded(pos int) {
 }
 
 func (t *Tree[E]) playGame(a, b int) (loser, winner int) {
-	if t.nodes[a].value < t.nodes[b].value {
+	// An ended sequence holds maxVal too, so on a tie a live sequence must win against it.
+	if t.nodes[a].value < t.nodes[b].value || (t.nodes[b].index == -1 && t.nodes[a].index != -1) {
 		return b, a
 	}
 	return a, b
